@@ -501,10 +501,11 @@ func goid() int64 {
 
 // ---- gates (T-gate) ----------------------------------------------------
 
-var gates sync.Map // name -> func()
+var gates sync.Map // name -> func(obj any)
 
-// SetGate installs (or, with nil, removes) the handler run at a named gate.
-func SetGate(name string, f func()) {
+// SetGate installs (or, with nil, removes) the handler run at a named gate. The handler is
+// given the receiver of the gated method, so that it can tell which object it is about.
+func SetGate(name string, f func(obj any)) {
 	if f == nil {
 		gates.Delete(name)
 		return
@@ -514,8 +515,8 @@ func SetGate(name string, f func()) {
 
 // Gate is called at the entry of functions selected by the instrumenter; it
 // runs the harness' handler for that gate (which may block until released).
-func Gate(name string) {
+func Gate(name string, obj any) {
 	if f, ok := gates.Load(name); ok {
-		f.(func())()
+		f.(func(any))(obj)
 	}
 }
